@@ -201,7 +201,7 @@ def gen_config(rng, with_decimal=False):
             fmt, w = rng.choice(DATE_FORMATS)
             fc.update(field_type='FIXED', field_length=w, field_python_type='datetime', field_date_format=fmt)
         elif r < 0.62:
-            fc.update(field_type='FIXED', field_length=rng.choice([1, 2, 3, 6, 8, 12, 15]),
+            fc.update(field_type='FIXED', field_length=rng.choice([1, 2, 3, 6, 8, 12, 15, 16, 17, 19, 24]),
                       field_python_type=rng.choice(['int', 'long']))
         elif r < 0.80:
             fc.update(field_type='FIXED', field_length=rng.choice([1, 2, 3, 4, 6, 8, 12, 15, 24, 40]))
@@ -397,6 +397,11 @@ def ref_render(fc, v, codec):
         body = v
     else:
         if pyt in ('int', 'long'):
+            if isinstance(v, str):        # a number given as text (the CSV tools do): its value counts, not its spelling
+                try:
+                    v = int(v)
+                except ValueError:
+                    raise RefError('numeric element given as text that int() does not accept')
             s = str(v).rjust(fc['field_length'], '0')
         elif pyt == 'decimal':
             s = format(v, f"0{fc['field_length']}f")
